@@ -29,7 +29,7 @@ ASSUMPTIONS = [
     "async wire check uses the in-process simulator as peer on the virtual-time loop",
 ]
 BUDGET = {
-    "quick": {"workers": 16, "examples": 1600},
+    "quick": {"workers": 16, "examples": 4800},
     "thorough": {"workers": 16, "examples": 40000},
 }
 EXHAUSTIVE_NOTE = "counter state space of both implementations"
@@ -187,6 +187,8 @@ def strategy(tier):
                 st.tuples(st.just("wc"), st.integers(0, 4)),
                 st.tuples(st.just("refresh")),
                 st.tuples(st.just("statp"), st.integers(0, 1000), st.integers(0, 65535)),
+                # something unpleasant happens on the receive side of the live connection (the numbering must not notice)
+                st.tuples(st.just("rx"), st.sampled_from(["refused", "reset", "unreachable", "timeout", "junk", "empty"])),
             ).map(list),
             min_size=1,
             max_size=12,
@@ -194,7 +196,7 @@ def strategy(tier):
         st.tuples(st.integers(0, 200), st.integers(0, 70)).map(list),
     )
     wire_async = st.builds(
-        lambda ops, pre: {"k": "wire_async", "ops": ops, "pre": pre},
+        lambda ops, pre, lose: dict({"k": "wire_async", "ops": ops, "pre": pre}, **({"lose": sorted(set(lose))} if lose else {})),
         st.lists(
             st.one_of(
                 st.tuples(st.just("set"), st.integers(0, 1022), st.integers(0, 1), st.integers(0, 255)),
@@ -207,6 +209,8 @@ def strategy(tier):
             max_size=10,
         ),
         st.one_of(st.tuples(st.integers(0, 200), st.integers(0, 70)), st.tuples(st.integers(170, 190), st.integers(55, 64))).map(list),
+        # indices of ops whose first reply is lost: the request is built again (a fresh number) after timeout + pause
+        st.one_of(st.just([]), st.just([]), st.lists(st.integers(0, 9), min_size=1, max_size=3)),
     )
     return st.one_of(seqs, seqs, threads, wire, wire_async)
 
@@ -355,6 +359,29 @@ def _run_wire_sync(res, case):
         elif op[0] == "refresh":
             spa.refresh()
             kind = False
+        elif op[0] == "rx":
+            import socket as _socket
+
+            class _Rx:
+                def recvfrom(self, n, _w=op[1]):
+                    if _w == "refused":
+                        raise ConnectionRefusedError(111, "Connection refused")     # ICMP port unreachable on a UDP socket
+                    if _w == "reset":
+                        raise ConnectionResetError(104, "Connection reset by peer")
+                    if _w == "unreachable":
+                        raise OSError(101, "Network is unreachable")
+                    if _w == "timeout":
+                        raise _socket.timeout()
+                    return (b"" if _w == "empty" else b"\x00\xffjunk"), ("10.1.2.3", 10022)
+            saved = spa._socket
+            spa._socket = _Rx()
+            try:
+                spa._process_received_data()
+            finally:
+                spa._socket = saved
+            if len(spa._send_handlers) != before:
+                res.fail("C16|wire_sync|rx|count", f"a receive-side event ({op[1]}) queued {len(spa._send_handlers) - before} datagrams")
+            continue
         elif op[0] == "statp":
             body = b"STATP\x01" + struct.pack(">H", op[1]) + struct.pack(">H", op[2])
             h = [x for x in spa._receive_handlers if isinstance(x, GeckoPartialStatusBlockProtocolHandler)][0]
